@@ -445,7 +445,15 @@ pub fn t_entry_api() -> String {
     let w3: Option<Vec<i32>> = None;
     let w4: Result<i64, String> = Err("e".to_string());
     let defaults = (w1.unwrap_or_default(), w2.unwrap_or_default(), w3.unwrap_or_default(), w4.unwrap_or_default(), None::<String>.unwrap_or_default(), None::<bool>.unwrap_or_default());
-    show!((log, keys, bv, cs, price, r, defaults))
+    let pairs = vec![("k1", 1), ("k2", 2), ("k1", 3), ("k3", 4), ("k2", 5)];
+    let collected: HashMap<&str, i32> = pairs.iter().cloned().collect();
+    let mut cv: Vec<_> = collected.into_iter().collect();
+    cv.sort();
+    let uniq: std::collections::HashSet<i32> = [3, 1, 3, 2, 1].into_iter().collect();
+    let mut uv: Vec<_> = uniq.into_iter().collect();
+    uv.sort();
+    let normals: Vec<bool> = [0.0f64, -0.0, 1.5, f64::INFINITY, f64::NAN, 1e-310, -2.0].iter().map(|v| v.is_normal()).collect();
+    show!((log, keys, bv, cs, price, r, defaults, cv, uv, normals, 1e-310f64.is_subnormal()))
 }
 
 pub fn all() -> Vec<(&'static str, String)> {
